@@ -102,6 +102,9 @@ type BatchObs struct {
 	DirectCalls int // handler calls made while the invocations were run again through ServerView.Run
 	DirectRan   bool
 	Panic       string
+	// non-empty: the message server.Execute returns (used as it is, no encode/decode) does not answer Get like the
+	// response the client decoded
+	ExecDirect string
 }
 
 type unencodable struct{}
@@ -435,6 +438,58 @@ func (b *Batch) Run(channel func(srv server.ServerView) transport.Channel) *Batc
 		obs.DirectCalls = len(obs.Calls) - ncalls
 		obs.DirectRan = true
 		obs.Calls = obs.Calls[:ncalls]
+		// the response message exactly as server.Execute hands it over (an application embedding the server uses it
+		// without a codec round trip): Get finds the receipt of every invocation the client found one for
+		if obs.ExecErr == "" && len(all) > 0 {
+			if p := recovered(func() {
+				msg, err := message.Build(all, nil)
+				if err != nil {
+					return
+				}
+				out, err := server.Execute(srv, msg)
+				if err != nil || out == nil {
+					obs.ExecDirect = fmt.Sprintf("server.Execute on the built message failed (%v) although the same batch was answered through the client", err)
+					return
+				}
+				oblocks := map[string][]byte{}
+				for blk, err := range out.Blocks() {
+					if err == nil {
+						oblocks[blk.Link().String()] = blk.Bytes()
+					}
+				}
+				for _, ro := range obs.Rcpts {
+					if !ro.Found || !ro.Decoded {
+						continue
+					}
+					var l ipld.Link
+					for _, n := range b.Invs {
+						if b.W.built[n].Dlg.Link().String() == ro.Inv {
+							l = b.W.built[n].Dlg.Link()
+						}
+					}
+					if l == nil {
+						continue
+					}
+					rl, found := out.Get(l)
+					if !found || rl == nil {
+						obs.ExecDirect = fmt.Sprintf("the message server.Execute returned has no receipt retrievable for invocation %s (position %d of %d); the decoded response has", ro.Inv, indexOf(b, ro.Inv), len(b.Invs))
+						return
+					}
+					bb, ok := oblocks[rl.String()]
+					if !ok {
+						obs.ExecDirect = "the message server.Execute returned names a receipt whose block it does not carry, for invocation " + ro.Inv
+						return
+					}
+					if cls, ran, _, _ := decodeReceipt(bb); cls != ro.Class || ran != ro.Inv {
+						obs.ExecDirect = fmt.Sprintf("the message server.Execute returned files under invocation %s a receipt of class %s for %s; the decoded response has class %s", ro.Inv, cls, ran, ro.Class)
+						return
+					}
+				}
+			}); p != nil {
+				obs.ExecDirect = fmt.Sprintf("server.Execute / Get on its message panicked: %v", p)
+			}
+			obs.Calls = obs.Calls[:ncalls]
+		}
 	}); p != nil {
 		obs.Panic = fmt.Sprint(p)
 	}
@@ -870,4 +925,13 @@ func baseKind(kind string) string {
 		return kind[:i]
 	}
 	return kind
+}
+
+func indexOf(b *Batch, inv string) int {
+	for i, n := range b.Invs {
+		if b.W.built[n].Dlg.Link().String() == inv {
+			return i
+		}
+	}
+	return -1
 }
